@@ -419,6 +419,53 @@ fn monitor_self_test() -> Result<(), String> {
         }
         Ok(())
     };
+    // the guard-page scheme: clean use, and overruns into the alignment slack / the front zone
+    mon::set_guard_mode(2);
+    unsafe {
+        run("guard: clean", 0, 0, &|| {
+            let p = alloc(lay);
+            p.write_bytes(7, 40);
+            dealloc(p, lay);
+            0
+        })?;
+        run("guard: write past the end", mon::F_REDZONE_AFTER, 0, &|| {
+            let p = alloc(lay);
+            p.add(40).write(1);
+            dealloc(p, lay);
+            0
+        })?;
+        run("guard: write before the start", mon::F_REDZONE_BEFORE, 0, &|| {
+            let p = alloc(lay);
+            p.sub(1).write(1);
+            dealloc(p, lay);
+            0
+        })?;
+        run("guard: double free", mon::F_DOUBLE_FREE, 0, &|| {
+            let p = alloc(lay);
+            dealloc(p, lay);
+            dealloc(p, lay);
+            0
+        })?;
+        run("guard: leak", 0, 1, &|| alloc(lay) as usize)?;
+    }
+    // the red-zone / poison scheme
+    mon::set_guard_mode(1);
+    let r = monitor_self_test_classic(&run, lay);
+    mon::set_guard_mode(0);
+    r
+}
+
+fn monitor_self_test_classic(
+    run: &dyn Fn(&str, u32, i64, &dyn Fn() -> usize) -> Result<(), String>,
+    lay: std::alloc::Layout,
+) -> Result<(), String> {
+    use std::alloc::{GlobalAlloc, Layout};
+    unsafe fn alloc(l: Layout) -> *mut u8 {
+        std::hint::black_box(mon::Monitor.alloc(l))
+    }
+    unsafe fn dealloc(p: *mut u8, l: Layout) {
+        mon::Monitor.dealloc(std::hint::black_box(p), l)
+    }
     unsafe {
         run("clean", 0, 0, &|| {
             let p = alloc(lay);
@@ -628,11 +675,21 @@ pub fn replay(ctx: &Ctx, v: &Value) -> Result<(), String> {
         return Err("C12 replay needs the vcheck_alloc binary (instrumented allocator)".into());
     }
     let mut st = Stats::default();
-    if v.get("threads").is_some() {
-        let tc: TCase = serde_json::from_value(v.clone()).map_err(|e| format!("bad case: {e}"))?;
-        oracle_sched(&tc, &mut st, false)
-    } else {
-        let case: c11::Case = serde_json::from_value(v.clone()).map_err(|e| format!("bad case: {e}"))?;
-        oracle_hist(&case, &mut st, false)
+    // a replay runs the case under both allocation schemes (guard pages, then red zones)
+    let mut r = Ok(());
+    for mode in [2u8, 1] {
+        mon::set_guard_mode(mode);
+        r = if v.get("threads").is_some() {
+            let tc: TCase = serde_json::from_value(v.clone()).map_err(|e| format!("bad case: {e}"))?;
+            oracle_sched(&tc, &mut st, false)
+        } else {
+            let case: c11::Case = serde_json::from_value(v.clone()).map_err(|e| format!("bad case: {e}"))?;
+            oracle_hist(&case, &mut st, false)
+        };
+        if r.is_err() {
+            break;
+        }
     }
+    mon::set_guard_mode(0);
+    r
 }
